@@ -137,6 +137,17 @@ void DocumentBuilder::decl_progress(bool hasGuard)
 /********************************************************************
  * Process declarations
  */
+/**
+ * The template that locations, branchpoints, edges and LSC elements are added to. There is none after a
+ * process or dynamic template declaration inside the declarations of a template (XML) has ended it.
+ */
+static template_t& required(template_t* current)
+{
+    if (current == nullptr)
+        throw TypeException{"$Not_inside_a_template"};
+    return *current;
+}
+
 void DocumentBuilder::proc_begin(const char* name, const bool isTA, const string& type, const string& mode)
 {
     currentTemplate = document.find_dynamic_template(name);
@@ -191,7 +202,7 @@ void DocumentBuilder::proc_location(const char* name, bool hasInvariant, bool ha
         e = fragments[0];
         fragments.pop();
     }
-    currentTemplate->add_location(name, e, f, position);
+    required(currentTemplate).add_location(name, e, f, position);
 }
 
 void DocumentBuilder::proc_location_commit(const char* name)
@@ -219,7 +230,7 @@ void DocumentBuilder::proc_location_urgent(const char* name)
     }
 }
 
-void DocumentBuilder::proc_branchpoint(const char* name) { currentTemplate->add_branchpoint(name, position); }
+void DocumentBuilder::proc_branchpoint(const char* name) { required(currentTemplate).add_branchpoint(name, position); }
 
 void DocumentBuilder::proc_location_init(const char* name)
 {
@@ -227,7 +238,7 @@ void DocumentBuilder::proc_location_init(const char* name)
     if (!resolve(name, uid) || !uid.get_type().is_location()) {
         handle_error(TypeException{"$Location_expected"});
     } else {
-        currentTemplate->init = uid;
+        required(currentTemplate).init = uid;
     }
 }
 
@@ -244,7 +255,7 @@ void DocumentBuilder::proc_edge_begin(const char* from, const char* to, const bo
         currentEdge = nullptr;
         push_frame(frame_t::create(frames.top()));  // dummy frame for upcoming popFrame
     } else {
-        currentEdge = &currentTemplate->add_edge(fid, tid, control, actname);
+        currentEdge = &required(currentTemplate).add_edge(fid, tid, control, actname);
         currentEdge->guard = make_constant(1);
         currentEdge->assign = make_constant(1);
         // default "probability" weight is 1.
@@ -462,7 +473,7 @@ void DocumentBuilder::proc_priority(const string& name)
 /**
  * Adds an instance line to the current template.
  */
-void DocumentBuilder::proc_instance_line() { currentInstanceLine = &currentTemplate->add_instance_line(); }
+void DocumentBuilder::proc_instance_line() { currentInstanceLine = &required(currentTemplate).add_instance_line(); }
 /**
  * templ is true if the name of the instance contains parameters like
  * "Train(1)". Here, "Train" is the name of a template.
@@ -586,7 +597,7 @@ void DocumentBuilder::proc_message(const char* from, const char* to, const int l
     } else if (!resolve(to, tid) || !tid.get_type().is_instance_line()) {
         handle_error(TypeException{"$No_such_instance_line_(destination)"});
     } else {
-        currentMessage = &currentTemplate->add_message(fid, tid, loc, pch);
+        currentMessage = &required(currentTemplate).add_message(fid, tid, loc, pch);
     }
 }
 
@@ -620,7 +631,7 @@ void DocumentBuilder::proc_condition(const vector<string>& anchors, const int lo
         isHot = false;
     }
     if (!error) {
-        currentCondition = &currentTemplate->add_condition(v_anchorid, loc, pch, isHot);
+        currentCondition = &required(currentTemplate).add_condition(v_anchorid, loc, pch, isHot);
         currentCondition->label = make_constant(1);
     }
 }
@@ -642,7 +653,7 @@ void DocumentBuilder::proc_LSC_update(const char* anchor, const int loc, const b
     if (!resolve(anchor, anchorid) || !anchorid.get_type().is_instance_line()) {
         handle_error(TypeException{"$No_such_instance_line_(anchor)"});
     } else {
-        currentUpdate = &currentTemplate->add_update(anchorid, loc, pch);
+        currentUpdate = &required(currentTemplate).add_update(anchorid, loc, pch);
         currentUpdate->label = make_constant(1);
     }
 }
@@ -654,7 +665,7 @@ void DocumentBuilder::proc_LSC_update()  // Label
     fragments.pop();
 }
 
-void DocumentBuilder::prechart_set(const bool pch) { currentTemplate->has_prechart = pch; }
+void DocumentBuilder::prechart_set(const bool pch) { required(currentTemplate).has_prechart = pch; }
 
 void DocumentBuilder::decl_dynamic_template(const std::string& name)
 {
